@@ -45,7 +45,7 @@ def main():
     ap = sh(f"git -C /repo apply --3way {patch} || git -C /repo apply {patch}")
     if sh("git -C /repo status --porcelain").stdout.strip() == "":
         ap = sh(f"cd /repo && patch -p1 < {patch}")
-    res["check"]["apply"] = "ok" if sh("git -C /repo diff --stat").stdout.strip() else ("FAILED " + ap.stderr[-300:])
+    res["check"]["apply"] = "ok" if sh("git -C /repo status --porcelain").stdout.strip() else ("FAILED " + ap.stderr[-300:])
     try:
         t0 = time.time()
         c = sh(f"cd {VERIF} && ./check {prop} --tier {tier}", timeout=3000)
